@@ -194,6 +194,32 @@ func runC17(c *Ctx) {
 				c.Check(kindOf(ci.Args[1]) == want, rule, v.Name()+":"+ci.Callee, ci.In.Pos(),
 					ci.Callee+" is given "+ci.Args[1])
 			}
+			// the same two options written directly: SO_SNDBUF(7)/SO_SNDBUFFORCE(32) take the
+			// send size, SO_RCVBUF(8)/SO_RCVBUFFORCE(33) the receive size (Linux values; the
+			// file is conn_linux.go). Other options are none of this rule's business.
+			for _, ci := range v.Calls("private/underlay/sockctrl.SetsockoptInt", "syscall.SetsockoptInt", "golang.org/x/sys/unix.SetsockoptInt") {
+				a := ci.In.Common().Args
+				if len(a) != 4 {
+					continue
+				}
+				lvl, okL := constInt(a[1])
+				opt, okO := constInt(a[2])
+				if !okL || !okO {
+					c.Fail(rule, v.Name()+":"+ci.Callee+":option-not-constant", ci.In.Pos(), "socket option "+ci.Args[2]+" at level "+ci.Args[1])
+					continue
+				}
+				want := ""
+				switch {
+				case lvl == 1 && (opt == 7 || opt == 32):
+					want = kSend
+				case lvl == 1 && (opt == 8 || opt == 33):
+					want = kRecv
+				default:
+					continue
+				}
+				c.Check(kindOf(ci.Args[3]) == want, rule, fmt.Sprintf("%s:%s:option-%d", v.Name(), ci.Callee, opt), ci.In.Pos(),
+					fmt.Sprintf("socket option %d (%s buffer) is given %s", opt, want, ci.Args[3]))
+			}
 		}
 	}
 	c.Min("socket-option-calls", nOpt, 2)
